@@ -1042,4 +1042,408 @@ Proof.
   destruct (ti_val _ _ _ (inv_tab _ I _ _ Hn) _ _ V) as (j & o & a & b & O). simpl in O.
   destruct (ti_own _ _ _ (inv_tab _ I _ _ Hn) _ _ _ _ _ _ O) as (E1 & E2 & E3 & E4 & _). exists j, o. auto.
 Qed.
+
+(* ================= results of completed operations ================= *)
+Definition RES (tb : list ctab) (t i : nat) (o : op) (r : res) : Prop :=
+  match r with
+  | REmp n idx ins seen => is_find o = false /\ exists tn v, nth_error tb n = Some tn /\
+      cvals tn idx = Some (okey o, v) /\ seen = Some (okey o, v) /\
+      (ins = true -> exists j c, cown tn idx = Some (okey o, j, c, t, i) /\ o = OEmp (okey o) v) /\
+      (exists j c, In c offsets /\ emp_loop_cond (ps tn (okey o) j) (cmask tn) = true /\
+                   lidx tn (pb tn (okey o) j + c) = idx /\ cctrl tn (pb tn (okey o) j + c) = chk (okey o))
+  | RFull => is_find o = false /\ exists tn, nth_error tb 0 = Some tn /\ tab_passed tn (okey o)
+  | RFind (Some (n, idx)) seen _ => is_find o = true /\ exists tn v, nth_error tb n = Some tn /\
+      cvals tn idx = Some (okey o, v) /\ seen = Some (okey o, v)
+  | RFind None _ _ => is_find o = true
+  end.
+
+Lemma RES_ext tb tb' t i o r : lext tb tb' -> RES tb t i o r -> RES tb' t i o r.
+Proof.
+  intros L. destruct r as [n idx ins seen| |[[n idx]|] seen a]; cbn -[nth_error]; auto.
+  - intros (H1 & tn & v & Hn & Hv & Hs & Hi & (j0 & c0 & P1 & P2 & P3 & P4)). destruct (L _ _ Hn) as (tn' & Hn' & T). split; auto.
+    exists tn', v. split; auto. split; [apply T; auto|]. split; auto. split.
+    + intros E. destruct (Hi E) as (j & c & Ho & Eo). exists j, c. split; auto. apply T; auto.
+    + pose proof T as (_ & M & T3 & _). exists j0, c0. unfold lidx. rewrite (pb_mask tn tn'), (ps_mask tn tn'), M by auto.
+      split; auto. split; auto. split; auto. rewrite T3; auto. rewrite P4. apply chk_rng.
+  - intros (H1 & tn & Hn & Hp). destruct (L _ _ Hn) as (tn' & Hn' & T). split; auto. exists tn'. split; auto.
+    eapply tab_passed_ext; eauto.
+  - intros (H1 & tn & v & Hn & Hv & Hs). destruct (L _ _ Hn) as (tn' & Hn' & T). split; auto.
+    exists tn', v. split; auto. split; [apply T; auto|auto].
+Qed.
+
+Record RInv (s : st) : Prop := {
+  ri_len : forall t th, nth_error (threads s) t = Some th -> length (results th) = opi th;
+  ri_res : forall t th i r b e, nth_error (threads s) t = Some th -> nth_error (results th) i = Some (r, b, e) ->
+             exists o, nth_error (prog th) i = Some o /\ RES (tabs s) t i o r
+}.
+
+(* what a step does to the results of the stepping thread *)
+Lemma step_res s t s' th : Inv s -> step hash s t = Some s' -> nth_error (threads s) t = Some th ->
+  exists th', threads s' = set_nth t th' (threads s) /\ prog th' = prog th /\
+    ((results th' = results th /\ opi th' = opi th) \/
+     (exists o r b e, cur_op th = Some o /\ results th' = results th ++ [(r, b, e)] /\ opi th' = S (opi th) /\
+                      RES (tabs s') t (opi th) o r)).
+Proof.
+  intros I. unfold step. intros H Ht. rewrite Ht in H. revert H.
+  unfold step_thread. destruct (nth_error (prog th) (opi th)) as [o|] eqn:Ho; [|discriminate].
+  pose proof (inv_thr _ I _ _ Ht) as TI. unfold TInv in TI.
+  assert (TIs := inv_tab _ I).
+  rewrite sel_checker_eq. fold (chk (okey o)).
+  destruct (tpc th) as [|n j stp base|n j stp base g cs|n j stp base c|n idx pos|n idx pos|n idx pos|n idx pos|n|n] eqn:Hpc.
+  - destruct (nth_error (tabs s) 0) as [t0|] eqn:H0; [|discriminate]. intros E; inversion E; subst s'; clear E.
+    eexists. split; [reflexivity|]. split; [reflexivity|]. left. split; reflexivity.
+  - destruct (nth_error (tabs s) n) as [tn|]; [|discriminate].
+    destruct (cands (gload tn base) (chk (okey o))); intros E; inversion E; subst s'; clear E;
+      (eexists; split; [reflexivity|]; split; [reflexivity|]; left; split; reflexivity).
+  - destruct TI as (o' & tn & Ho' & AG & Hb & Hs & Hne & Hcs & Hall). same_op Ho Ho' o'.
+    pose proof AG as (Hn & Hbase & Hstp & Hl). rewrite Hn. destruct cs as [|c rest]; [congruence|].
+    rewrite sel_index_eq. fold (lidx tn (base + c)).
+    destruct (cvals tn (lidx tn (base + c))) as [e|] eqn:Ev.
+    + destruct (fst e =? okey o) eqn:Ek; intros E; inversion E; subst s'; clear E.
+      * apply Z.eqb_eq in Ek. destruct e as [k0 v0]; simpl in Ek; subst k0.
+        eexists. split; [reflexivity|]. split; [reflexivity|]. right.
+        eexists o, _, _, _. split; [exact Ho|]. split; [reflexivity|]. split; [reflexivity|]. simpl tabs.
+        destruct (is_find o) eqn:Ef; cbn -[nth_error]; rewrite Ef.
+        -- split; auto. exists tn, v0. auto.
+        -- split; auto. exists tn, v0. split; auto. split; auto. split; auto. split; [discriminate|].
+           destruct (Hcs c (or_introl eq_refl)) as (Hc & Hg). exists j, c. split; auto. rewrite <- Hstp, <- Hbase.
+           split; auto. split; auto. rewrite (Hs c Hc); auto. rewrite Hg. apply chk_rng.
+      * eexists. split; [reflexivity|]. split; [reflexivity|]. left. split; reflexivity.
+    + intros E; inversion E; subst s'; clear E. eexists. split; [reflexivity|]. split; [reflexivity|]. left. split; reflexivity.
+  - destruct (nth_error (tabs s) n) as [tn|]; [|discriminate].
+    destruct (_ =? cas_expected); [|destruct (cas_saw_dummy _)]; intros E; inversion E; subst s'; clear E;
+      (eexists; split; [reflexivity|]; split; [reflexivity|]; left; split; reflexivity).
+  - destruct (nth_error (tabs s) n) as [tn|]; [|discriminate]. destruct o; [|discriminate].
+    intros E; inversion E; subst s'; clear E. eexists. split; [reflexivity|]. split; [reflexivity|]. left. split; reflexivity.
+  - destruct (nth_error (tabs s) n) as [tn|]; [|discriminate].
+    intros E; inversion E; subst s'; clear E. eexists. split; [reflexivity|]. split; [reflexivity|]. left. split; reflexivity.
+  - destruct (nth_error (tabs s) n) as [tn|]; [|discriminate].
+    intros E; inversion E; subst s'; clear E. eexists. split; [reflexivity|]. split; [reflexivity|]. left. split; reflexivity.
+  - destruct TI as (k & v & tn & j & c & Ho' & (Hn & Hown & Hpos) & Hval & Hctl & Hcp). unfold cur_op in Ho'. rewrite Ho in Ho'.
+    inversion Ho'; subst o; clear Ho'. rewrite Hn. simpl okey.
+    intros E; inversion E; subst s'; clear E.
+    eexists. split; [reflexivity|]. split; [reflexivity|]. right.
+    eexists (OEmp k v), _, _, _. split; [exact Ho|]. split; [reflexivity|]. split; [reflexivity|]. cbn -[nth_error].
+    split; auto. eexists _, v. split; [apply nth_error_set_nth_eq; eapply nth_len; eauto|]. cbn -[nth_error].
+    split; auto. split; auto. split; [intros _; exists j, c; auto|].
+    destruct (ti_own _ _ _ (TIs _ _ Hn) _ _ _ _ _ _ Hown) as (O1 & O2 & O3 & _).
+    exists j, c. unfold lidx, pb, ps; cbn -[nth_error pseq]. fold (pb tn k j). fold (ps tn k j). fold (lidx tn (pb tn k j + c)).
+    split; auto. split; auto. split; auto. rewrite <- Hpos. auto.
+  - destruct TI as (o' & Ho' & Hlen & Hp). same_op Ho Ho' o'.
+    destruct (negb (grow s)) eqn:Eg.
+    + intros E; inversion E; subst s'; clear E. eexists. split; [reflexivity|]. split; [reflexivity|]. right.
+      eexists o, _, _, _. split; [exact Ho|]. split; [reflexivity|]. split; [reflexivity|]. simpl tabs.
+      destruct (is_find o) eqn:Ef; cbn -[nth_error]; rewrite Ef; auto. split; auto.
+      destruct (nth_error (tabs s) 0) as [t0|] eqn:E0.
+      * exists t0. split; auto. apply (Hp eq_refl 0%nat t0); auto. lia.
+      * exfalso. pose proof (inv_ne _ I). destruct (tabs s); [congruence|discriminate].
+    + destruct (nth_error (tabs s) (S n)) as [tnx|] eqn:Enx.
+      * rewrite null_1. intros E; inversion E; subst s'; clear E.
+        eexists. split; [reflexivity|]. split; [reflexivity|]. left. split; reflexivity.
+      * rewrite null_0. destruct (is_find o) eqn:Ef; intros E; inversion E; subst s'; clear E.
+        -- eexists. split; [reflexivity|]. split; [reflexivity|]. right.
+           eexists o, _, _, _. split; [exact Ho|]. split; [reflexivity|]. split; [reflexivity|]. cbn -[nth_error]. exact Ef.
+        -- eexists. split; [reflexivity|]. split; [reflexivity|]. left. split; reflexivity.
+  - destruct (nth_error (tabs s) n) as [tn|] eqn:Hn; [|discriminate].
+    destruct (nth_error (tabs s) (S n)) as [tnx|] eqn:Enx; intros E; inversion E; subst s'; clear E;
+      (eexists; split; [reflexivity|]; split; [reflexivity|]; left; split; reflexivity).
+Qed.
+
+Lemma step_rinv s t s' : Inv s -> RInv s -> step hash s t = Some s' -> RInv s'.
+Proof.
+  intros I R H. destruct (step_inv _ _ _ I H) as (I' & L).
+  pose proof H as H0. unfold step in H0. destruct (nth_error (threads s) t) as [th|] eqn:Ht; [|discriminate]. clear H0.
+  destruct (step_res _ _ _ _ I H Ht) as (th' & Hthr & Hprog & Hcase).
+  constructor.
+  - intros t' x Hx. rewrite Hthr in Hx. destruct (nth_set_threads _ _ _ _ _ _ Ht Hx) as [(-> & ->)|(Hne & Hx')].
+    + pose proof (ri_len _ R _ _ Ht) as E. destruct Hcase as [(-> & ->)|(o & r & b & e & _ & -> & -> & _)]; auto.
+      rewrite app_length; simpl. lia.
+    + apply (ri_len _ R _ _ Hx').
+  - intros t' x i r b e Hx Hi. rewrite Hthr in Hx. destruct (nth_set_threads _ _ _ _ _ _ Ht Hx) as [(-> & ->)|(Hne & Hx')].
+    + rewrite Hprog. destruct Hcase as [(Er & Eo)|(o & r0 & b0 & e0 & Hop & Er & Eo & HR)].
+      * rewrite Er in Hi. destruct (ri_res _ R _ _ _ _ _ _ Ht Hi) as (o & Ho & HR). exists o. split; auto. eapply RES_ext; eauto.
+      * rewrite Er in Hi. pose proof (ri_len _ R _ _ Ht) as El.
+        destruct (Nat.lt_ge_cases i (length (results th))) as [Hlt|Hge].
+        -- rewrite nth_error_app1 in Hi by auto. destruct (ri_res _ R _ _ _ _ _ _ Ht Hi) as (o1 & Ho1 & HR1).
+           exists o1. split; auto. eapply RES_ext; eauto.
+        -- rewrite nth_error_app2 in Hi by auto. destruct (i - length (results th))%nat eqn:Ed; simpl in Hi.
+           ++ inversion Hi; subst r0 b0 e0. assert (i = opi th) by lia. subst i. exists o. split; auto.
+           ++ destruct n; discriminate.
+    + destruct (ri_res _ R _ _ _ _ _ _ Hx' Hi) as (o & Ho & HR). exists o. split; auto. eapply RES_ext; eauto.
+Qed.
+
+Lemma init_rinv cap g progs : RInv (init cap g progs).
+Proof.
+  constructor; simpl.
+  - intros t th H. apply nth_error_In in H. apply in_map_iff in H. destruct H as (p & <- & _). reflexivity.
+  - intros t th i r b e H Hi. apply nth_error_In in H. apply in_map_iff in H. destruct H as (p & <- & _).
+    simpl in Hi. destruct i; discriminate.
+Qed.
+
+Lemma hc_rinv cap g progs s : Reach cap g progs s -> Inv s /\ RInv s.
+Proof.
+  apply (inv_reachable st (step hash) (fun s => Inv s /\ RInv s)).
+  - split; [apply init_inv|apply init_rinv].
+  - intros s0 t s1 (I & R) H. split; [apply (step_inv _ _ _ I H)|eapply step_rinv; eauto].
+Qed.
+
+(* the event of thread t for its i-th operation *)
+Definition event (s : st) (t i : nat) (o : op) (r : res) : Prop :=
+  exists th b e, nth_error (threads s) t = Some th /\ nth_error (prog th) i = Some o /\
+                 nth_error (results th) i = Some (r, b, e).
+
+Lemma event_res cap g progs s t i o r : Reach cap g progs s -> event s t i o r -> RES (tabs s) t i o r.
+Proof.
+  intros R (th & b & e & Ht & Ho & Hr). destruct (hc_rinv _ _ _ _ R) as (I & RI).
+  destruct (ri_res _ RI _ _ _ _ _ _ Ht Hr) as (o' & Ho' & HR). congruence.
+Qed.
+
+(* --- at most one insertion per key reports success --- *)
+Lemma hc_one_winner cap g progs s t1 i1 o1 n1 x1 s1 t2 i2 o2 n2 x2 s2 : Reach cap g progs s ->
+  event s t1 i1 o1 (REmp n1 x1 true s1) -> event s t2 i2 o2 (REmp n2 x2 true s2) -> okey o1 = okey o2 ->
+  t1 = t2 /\ i1 = i2.
+Proof.
+  intros R E1 E2 Hk. pose proof (hc_inv _ _ _ _ R) as I.
+  destruct (event_res _ _ _ _ _ _ _ _ R E1) as (_ & tn1 & v1 & Hn1 & _ & _ & W1 & _).
+  destruct (event_res _ _ _ _ _ _ _ _ R E2) as (_ & tn2 & v2 & Hn2 & _ & _ & W2 & _).
+  destruct (W1 eq_refl) as (j1 & c1 & O1 & _). destruct (W2 eq_refl) as (j2 & c2 & O2 & _). rewrite Hk in O1.
+  destruct (inv_uniq _ I _ _ _ _ _ _ _ _ _ _ _ _ _ _ _ Hn1 Hn2 O1 O2) as (-> & ->).
+  rewrite Hn1 in Hn2. inversion Hn2; subst tn2. rewrite O1 in O2. inversion O2. auto.
+Qed.
+
+(* --- all insertions and lookups of a key return the same slot; it holds a fully constructed element of that key, and
+       every one of them saw that same element (the winner's: its value is the winner's argument) --- *)
+Definition slot_of (r : res) : option (nat * Z * option elem) :=
+  match r with
+  | REmp n i _ seen => Some (n, i, seen)
+  | RFind (Some (n, i)) seen _ => Some (n, i, seen)
+  | _ => None
+  end.
+
+Lemma res_slot tb t i o r n x seen : RES tb t i o r -> slot_of r = Some (n, x, seen) ->
+  exists tn v, nth_error tb n = Some tn /\ cvals tn x = Some (okey o, v) /\ seen = Some (okey o, v).
+Proof.
+  destruct r as [n0 idx ins sn| |[[n0 idx]|] sn a]; cbn -[nth_error]; try discriminate.
+  - intros (_ & tn & v & H1 & H2 & H3 & _) E. inversion E; subst. eauto.
+  - intros (_ & tn & v & H1 & H2 & H3) E. inversion E; subst. eauto.
+Qed.
+
+Lemma hc_same_element cap g progs s t1 i1 o1 r1 n1 x1 s1 t2 i2 o2 r2 n2 x2 s2 : Reach cap g progs s ->
+  event s t1 i1 o1 r1 -> event s t2 i2 o2 r2 -> okey o1 = okey o2 ->
+  slot_of r1 = Some (n1, x1, s1) -> slot_of r2 = Some (n2, x2, s2) ->
+  n1 = n2 /\ x1 = x2 /\ s1 = s2 /\ exists v, s1 = Some (okey o1, v).
+Proof.
+  intros R E1 E2 Hk S1 S2.
+  destruct (res_slot _ _ _ _ _ _ _ _ (event_res _ _ _ _ _ _ _ _ R E1) S1) as (tn1 & v1 & Hn1 & V1 & Q1).
+  destruct (res_slot _ _ _ _ _ _ _ _ (event_res _ _ _ _ _ _ _ _ R E2) S2) as (tn2 & v2 & Hn2 & V2 & Q2).
+  rewrite <- Hk in V2, Q2.
+  destruct (hc_key_one_slot _ _ _ _ _ _ _ _ _ _ _ _ _ R Hn1 Hn2 V1 V2) as (-> & ->).
+  rewrite Hn1 in Hn2. inversion Hn2; subst tn2. rewrite V1 in V2. inversion V2; subst v2.
+  split; auto. split; auto. split; [congruence|eauto].
+Qed.
+
+Lemma hc_winner_value cap g progs s t i k v n x seen : Reach cap g progs s ->
+  event s t i (OEmp k v) (REmp n x true seen) -> seen = Some (k, v).
+Proof.
+  intros R E. destruct (event_res _ _ _ _ _ _ _ _ R E) as (_ & tn & v0 & _ & _ & Q & W & _).
+  destruct (W eq_refl) as (j & c & _ & Eo). simpl in Eo, Q. congruence.
+Qed.
+
+(* --- an insertion that fails (fixed table) found every byte of every group of its probe sequence a tag of another key:
+       the table is full for that key; and it is an insertion on a non-growing table --- *)
+Lemma hc_full_fails cap g progs s t i o : Reach cap g progs s -> event s t i o RFull ->
+  is_find o = false /\ exists t0, nth_error (tabs s) 0 = Some t0 /\ tab_passed t0 (okey o).
+Proof. intros R E. exact (event_res _ _ _ _ _ _ _ _ R E). Qed.
+
+(* --- once an insertion of k has returned (winner or not), in every later state - whatever the schedule - the byte at
+       a position of k's own probe sequence that addresses the returned slot still carries k's tag, the slot still holds
+       the same element, and (hc_key_position) every position k's probe examines before its slot is a tag of a
+       constructed element of another key: a later lookup finds no free byte to stop at and no reason to skip it --- *)
+Lemma hc_insert_stays_visible cap g progs s sch t i o n x ins seen : Reach cap g progs s ->
+  event s t i o (REmp n x ins seen) ->
+  exists tn' v j c, nth_error (tabs (Machine.run st (step hash) s sch)) n = Some tn' /\
+    seen = Some (okey o, v) /\ cvals tn' x = Some (okey o, v) /\ In c offsets /\
+    emp_loop_cond (ps tn' (okey o) j) (cmask tn') = true /\ Z.land (pb tn' (okey o) j + c) (cmask tn') = x /\
+    cctrl tn' (pb tn' (okey o) j + c) = emp_checker (hash (okey o)).
+Proof.
+  intros R E. pose proof (hc_inv _ _ _ _ R) as I. destruct (run_ext sch s I) as (_ & L).
+  pose proof (RES_ext _ _ _ _ _ _ L (event_res _ _ _ _ _ _ _ _ R E)) as (_ & tn' & v & Hn & Hv & Hs & _ & (j & c & P1 & P2 & P3 & P4)).
+  exists tn', v, j, c. auto 10.
+Qed.
+
+(* ================= statements that are not proved yet (see Properties_C03.v) ================= *)
+Definition event_st (s : st) (t i : nat) (o : op) (r : res) (b e : nat) : Prop :=
+  exists th, nth_error (threads s) t = Some th /\ nth_error (prog th) i = Some o /\
+             nth_error (results th) i = Some (r, b, e).
+
+(* in a finished run, a key that some insertion returned a slot for has exactly one successful insertion *)
+Definition exactly_one_winner_stmt : Prop := forall cap g progs s t i o r n x sn,
+  Reach cap g progs s -> all_done s = true -> event s t i o r -> is_find o = false -> slot_of r = Some (n, x, sn) ->
+  exists t' i' o' sn', event s t' i' o' (REmp n x true sn') /\ okey o' = okey o.
+
+(* a lookup that begins after an insertion of its key has returned finds the key *)
+Definition find_after_insert_stmt : Prop := forall cap g progs s t i o r b e t' i' o' r' b' e' n x sn,
+  Reach cap g progs s -> event_st s t i o r b e -> is_find o = false -> slot_of r = Some (n, x, sn) ->
+  event_st s t' i' o' r' b' e' -> is_find o' = true -> okey o' = okey o -> (e < b')%nat ->
+  exists sn', slot_of r' = Some (n, x, sn').
+
+(* a failed insertion never constructed anything from its arguments *)
+Definition full_no_consume_stmt : Prop := forall cap g progs s t i o,
+  Reach cap g progs s -> event s t i o RFull -> ~ In (t, i) (consumed s).
+
 End Proofs.
+
+
+
+(* ================= arguments are consumed only by insertions that succeed ================= *)
+Section Consume.
+Variable hash : Z -> Z.
+
+Definition constructing (p : pc) : bool := match p with PCons _ _ _ => true | _ => false end.
+Definition publishing (p : pc) : bool :=
+  match p with PStore1 _ _ _ | PStore2 _ _ _ | PSize _ _ _ => true | _ => false end.
+
+Lemma after_match_np isf tb n j stp base g : publishing (after_match isf tb n j stp base g) = false.
+Proof. unfold after_match. destruct (first_empty_g g); [destruct isf|destruct (sel_loop_cond _ _ _)]; reflexivity. Qed.
+
+(* what a step does to the ghost list `consumed` and to the publishing phase of the stepping thread *)
+Lemma step_cons s t s' th : step hash s t = Some s' -> nth_error (threads s) t = Some th ->
+  exists th', threads s' = set_nth t th' (threads s) /\ (exists l, results th' = results th ++ l) /\
+    ((constructing (tpc th) = false /\ consumed s' = consumed s /\
+      ((publishing (tpc th) = false /\ publishing (tpc th') = false) \/
+       (opi th' = opi th /\ publishing (tpc th') = true) \/
+       (exists n x sn b e, results th' = results th ++ [(REmp n x true sn, b, e)]))) \/
+     (constructing (tpc th) = true /\ consumed s' = (t, opi th) :: consumed s /\ opi th' = opi th /\
+      publishing (tpc th') = true)).
+Proof.
+  unfold step. intros H Ht. rewrite Ht in H. revert H.
+  unfold step_thread. destruct (nth_error (prog th) (opi th)) as [o|] eqn:Ho; [|discriminate].
+  destruct (tpc th) as [|n j stp base|n j stp base g cs|n j stp base c|n idx pos|n idx pos|n idx pos|n idx pos|n|n] eqn:Hpc.
+  - destruct (nth_error (tabs s) 0); [|discriminate]. intros E; inversion E; subst s'; clear E.
+    eexists. split; [reflexivity|]. split; [exists []; simpl; rewrite app_nil_r; reflexivity|]. left. repeat split. left. split; reflexivity.
+  - destruct (nth_error (tabs s) n) as [tn|]; [|discriminate].
+    destruct (cands _ _) as [|c0 cs0]; intros E; inversion E; subst s'; clear E;
+      (eexists; split; [reflexivity|]; split; [exists []; simpl; rewrite app_nil_r; reflexivity|]; left; repeat split; left; split;
+       [reflexivity|simpl; try apply after_match_np; reflexivity]).
+  - destruct (nth_error (tabs s) n) as [tn|]; [|discriminate]. destruct cs as [|c rest]; [discriminate|].
+    destruct (cvals tn _) as [e|]; [destruct (fst e =? okey o)|]; intros E; inversion E; subst s'; clear E.
+    + eexists. split; [reflexivity|]. split; [eexists; reflexivity|]. left. repeat split. left. split; reflexivity.
+    + eexists. split; [reflexivity|]. split; [exists []; simpl; rewrite app_nil_r; reflexivity|]. left. repeat split. left.
+      split; [reflexivity|]. simpl. destruct rest; [apply after_match_np|reflexivity].
+    + eexists. split; [reflexivity|]. split; [exists []; simpl; rewrite app_nil_r; reflexivity|]. left. repeat split. left.
+      split; [reflexivity|]. simpl. destruct rest; [apply after_match_np|reflexivity].
+  - destruct (nth_error (tabs s) n) as [tn|]; [|discriminate].
+    destruct (_ =? cas_expected); [|destruct (cas_saw_dummy _)]; intros E; inversion E; subst s'; clear E;
+      (eexists; split; [reflexivity|]; split; [exists []; simpl; rewrite app_nil_r; reflexivity|]; left; repeat split; left; split; reflexivity).
+  - destruct (nth_error (tabs s) n) as [tn|]; [|discriminate]. destruct o; [|discriminate].
+    intros E; inversion E; subst s'; clear E. eexists. split; [reflexivity|].
+    split; [exists []; simpl; rewrite app_nil_r; reflexivity|]. right. repeat split.
+  - destruct (nth_error (tabs s) n) as [tn|]; [|discriminate].
+    intros E; inversion E; subst s'; clear E. eexists. split; [reflexivity|].
+    split; [exists []; simpl; rewrite app_nil_r; reflexivity|]. left. repeat split. right. left. split; reflexivity.
+  - destruct (nth_error (tabs s) n) as [tn|]; [|discriminate].
+    intros E; inversion E; subst s'; clear E. eexists. split; [reflexivity|].
+    split; [exists []; simpl; rewrite app_nil_r; reflexivity|]. left. repeat split. right. left. split; reflexivity.
+  - destruct (nth_error (tabs s) n) as [tn|]; [|discriminate].
+    intros E; inversion E; subst s'; clear E. eexists. split; [reflexivity|].
+    split; [eexists; reflexivity|]. left. repeat split. right. right. eexists _, _, _, _, _. reflexivity.
+  - destruct (negb (grow s)).
+    + intros E; inversion E; subst s'; clear E. eexists. split; [reflexivity|]. split; [eexists; reflexivity|].
+      left. repeat split. left. split; reflexivity.
+    + destruct (nth_error (tabs s) (S n)).
+      * destruct (next_is_null 1); [discriminate|]. intros E; inversion E; subst s'; clear E.
+        eexists. split; [reflexivity|]. split; [exists []; simpl; rewrite app_nil_r; reflexivity|]. left. repeat split. left. split; reflexivity.
+      * destruct (next_is_null 0); [|discriminate]. destruct (is_find o); intros E; inversion E; subst s'; clear E.
+        -- eexists. split; [reflexivity|]. split; [eexists; reflexivity|]. left. repeat split. left. split; reflexivity.
+        -- eexists. split; [reflexivity|]. split; [exists []; simpl; rewrite app_nil_r; reflexivity|]. left. repeat split. left. split; reflexivity.
+  - destruct (nth_error (tabs s) n) as [tn|]; [|discriminate].
+    destruct (nth_error (tabs s) (S n)); intros E; inversion E; subst s'; clear E;
+      (eexists; split; [reflexivity|]; split; [exists []; simpl; rewrite app_nil_r; reflexivity|]; left; repeat split; left; split; reflexivity).
+Qed.
+
+(* every consumed argument belongs to an insertion that has succeeded or is publishing its element *)
+Definition CInv (s : st) : Prop := forall t i, In (t, i) (consumed s) ->
+  exists th, nth_error (threads s) t = Some th /\
+    ((i = opi th /\ publishing (tpc th) = true) \/
+     (exists n x sn b e, nth_error (results th) i = Some (REmp n x true sn, b, e))).
+
+Lemma step_cinv s t s' : RInv hash s -> CInv s -> step hash s t = Some s' -> CInv s'.
+Proof.
+  intros R C H. pose proof H as H0. unfold step in H0. destruct (nth_error (threads s) t) as [th|] eqn:Ht; [|discriminate]. clear H0.
+  destruct (step_cons _ _ _ _ H Ht) as (th' & Hthr & (l & Hl) & Hc).
+  pose proof (ri_len _ _ R _ _ Ht) as Hlen.
+  assert (Hnew : nth_error (threads s') t = Some th').
+  { rewrite Hthr. apply nth_error_set_nth_eq. eapply nth_len; eauto. }
+  assert (Hold : forall i, In (t, i) (consumed s) ->
+            (i = opi th /\ publishing (tpc th) = true) \/
+            (exists n x sn b e, nth_error (results th') i = Some (REmp n x true sn, b, e))).
+  { intros i Hin. destruct (C _ _ Hin) as (x & Hx & Hd). rewrite Ht in Hx. inversion Hx; subst x.
+    destruct Hd as [?|(n & y & sn & b & e & Hr)]; auto. right. exists n, y, sn, b, e.
+    rewrite Hl, nth_error_app1; auto. apply nth_error_Some. congruence. }
+  intros t' i Hin.
+  assert (Hother : t' <> t -> In (t', i) (consumed s) -> exists x, nth_error (threads s') t' = Some x /\
+            ((i = opi x /\ publishing (tpc x) = true) \/ (exists n y sn b e, nth_error (results x) i = Some (REmp n y true sn, b, e)))).
+  { intros Hne Hin0. destruct (C _ _ Hin0) as (x & Hx & Hd). exists x. split; auto. rewrite Hthr, nth_error_set_nth_ne; auto. }
+  destruct Hc as [(C0 & Ec & Hd)|(C1 & Ec & Eo & P1)].
+  - rewrite Ec in Hin. destruct (Nat.eq_dec t' t) as [->|Hne]; [|apply Hother; auto].
+    exists th'. split; auto. destruct (Hold _ Hin) as [(Ei & Hp)|Hr]; [|auto].
+    destruct Hd as [(P0 & _)|[(Eo & P1)|(n & x & sn & b & e & Er)]].
+    + congruence.
+    + left. split; congruence.
+    + right. exists n, x, sn, b, e. rewrite Er, nth_error_app2 by lia. replace (i - length (results th))%nat with 0%nat by lia. reflexivity.
+  - rewrite Ec in Hin. destruct Hin as [E|Hin].
+    + inversion E; subst t' i. exists th'. split; auto.
+    + destruct (Nat.eq_dec t' t) as [->|Hne]; [|apply Hother; auto].
+      exists th'. split; auto. destruct (Hold _ Hin) as [(Ei & Hp)|Hr]; [|auto].
+      destruct (tpc th); simpl in *; discriminate.
+Qed.
+
+Lemma hc_cinv cap g progs s : Reach hash cap g progs s -> CInv s.
+Proof.
+  intros R. assert (G : (Inv hash s /\ RInv hash s) /\ CInv s); [|apply G].
+  revert s R. apply (inv_reachable st (step hash) (fun s => (Inv hash s /\ RInv hash s) /\ CInv s)).
+  - split; [split; [apply init_inv|apply init_rinv]|]. intros t i [].
+  - intros s0 t s1 ((I & R) & C) H. split; [split; [apply (step_inv _ _ _ _ I H)|eapply step_rinv; eauto]|eapply step_cinv; eauto].
+Qed.
+
+(* --- an insertion that failed never constructed anything from its arguments --- *)
+Lemma hc_full_no_consume : full_no_consume_stmt hash.
+Proof.
+  intros cap g progs s t i o R (th & b & e & Ht & Ho & Hr) Hin.
+  destruct (hc_cinv _ _ _ _ R _ _ Hin) as (x & Hx & Hd). rewrite Ht in Hx. inversion Hx; subst x.
+  destruct (hc_rinv _ _ _ _ _ R) as (_ & RI). pose proof (ri_len _ _ RI _ _ Ht) as Hlen.
+  destruct Hd as [(Ei & _)|(n & y & sn & b0 & e0 & Hr2)].
+  - assert (i < length (results th))%nat by (apply nth_error_Some; congruence). lia.
+  - congruence.
+Qed.
+End Consume.
+
+(* ================= non-vacuity ================= *)
+Lemma reach_run hash cap g progs sch : Reach hash cap g progs (Machine.run st (step hash) (init cap g progs) sch).
+Proof. exists sch. reflexivity. Qed.
+
+Definition ex_progs : list (list op) := [[OEmp 1 10]; [OEmp 1 20; OFind 1]; [OFind 1]].
+Definition ex_sched : list nat := [0;0;0;0; 2;2;2; 0;0;0;0; 1;1;1; 1;1;1]%nat.
+Definition ex_state : st := Machine.run st (step (fun k => k)) (init (Some 16) true ex_progs) ex_sched.
+
+Lemma hc_example_reach : Reach (fun k => k) (Some 16) true ex_progs ex_state.
+Proof. apply reach_run. Qed.
+
+(* a winner, a loser that gets the winner's element, a lookup after the insertion, a concurrent lookup that misses *)
+Lemma hc_example_events :
+  all_done ex_state = true /\
+  map (fun th => map (fun x => fst (fst x)) (results th)) (threads ex_state) =
+  [[REmp 0 0 true (Some (1, 10))];
+   [REmp 0 0 false (Some (1, 10)); RFind (Some (0%nat, 0)) (Some (1, 10)) true];
+   [RFind None None false]].
+Proof. split; vm_compute; reflexivity. Qed.
+
+(* a full fixed table: 16 insertions of colliding keys (same hash, same tag) fill it, the 17th fails *)
+Definition ex_full_progs : list (list op) := [map (fun k => OEmp k k) (zrange 17)].
+Definition ex_full_state : st :=
+  Machine.run st (step (fun _ => 5)) (init (Some 16) false ex_full_progs) (repeat 0%nat 600).
+Lemma hc_example_full_reach : Reach (fun _ => 5) (Some 16) false ex_full_progs ex_full_state.
+Proof. apply reach_run. Qed.
+Lemma hc_example_full :
+  map (fun th => nth_error (map (fun x => fst (fst x)) (results th)) 16) (threads ex_full_state) = [Some RFull].
+Proof. vm_compute. reflexivity. Qed.
